@@ -8,6 +8,7 @@ import (
 	"os"
 	"path/filepath"
 	"sort"
+	"strconv"
 	"strings"
 	"sync"
 	"testing"
@@ -26,6 +27,7 @@ type c02Case struct {
 	Threads  int      `json:"threads"`
 	Stdout   bool     `json:"stdout"` // -o stdout instead of a directory
 	RefLower bool     `json:"ref_lower"`
+	CLI      bool     `json:"cli,omitempty"`
 }
 
 var stdoutMu sync.Mutex
@@ -196,6 +198,37 @@ func checkC02(c c02Case, o *Obs) error {
 			}
 		}
 	}
+	if c.CLI && gofastaBin() != "" {
+		dir, cleanup := caseDir("c02cli")
+		defer cleanup()
+		ref := c.In.Ref
+		if c.RefLower {
+			ref = strings.ToLower(ref)
+		}
+		args := []string{"sam", "toPairAlign", "-s", writeFile(dir, "in.sam", c.In.render()), "-r", writeFile(dir, "ref.fa", ">"+c.In.RefName+" some description\n"+ref+"\n"), "-t", "1", "-o", "stdout"}
+		if c.SkipIns {
+			args = append(args, "--skip-insertions")
+		}
+		if c.OmitRef {
+			args = append(args, "--omit-reference")
+		}
+		if c.Start > 0 {
+			args = append(args, "--start", strconv.Itoa(c.Start))
+		}
+		if c.End > 0 {
+			args = append(args, "--end", strconv.Itoa(c.End))
+		}
+		if c.Wrap > 0 {
+			args = append(args, "-w", strconv.Itoa(c.Wrap))
+		}
+		var want strings.Builder
+		for _, n := range names {
+			want.WriteString(c02ExpectedFor(c, n))
+		}
+		if err := cliAgree(o, "sam toPairAlign", want.String(), args...); err != nil {
+			return err
+		}
+	}
 	// cross-command relation: deleting the reference-gap columns from the query row gives the
 	// `sam toMultiAlign --pad` row of the same query (checked on gofasta's own two outputs)
 	if !c.Stdout && !c.OmitRef && c.Wrap <= 0 {
@@ -276,7 +309,7 @@ func sameBlocks(got, want string, names []string, c c02Case) string {
 }
 
 func genC02(t *rapid.T) c02Case {
-	c := c02Case{In: genSamInput(t, samGenOpts{maxRef: ifThorough(300, 60), maxQueries: 4, maxRecs: ifThorough(4, 3), allowNoise: true, iupacRef: true, slashNames: true})}
+	c := c02Case{In: genSamInput(t, samGenOpts{maxRef: ifThorough(300, 60), maxQueries: 4, maxRecs: ifThorough(4, 3), allowNoise: true, iupacRef: true, slashNames: true, hugeEvery: 80})}
 	L := len(c.In.Ref)
 	c.SkipIns = rapid.IntRange(0, 4).Draw(t, "skipIns") == 0
 	c.OmitRef = rapid.IntRange(0, 4).Draw(t, "omitRef") == 0
@@ -285,6 +318,7 @@ func genC02(t *rapid.T) c02Case {
 	c.Threads = rapid.SampledFrom([]int{1, 1, 2, 3, 8}).Draw(t, "threads")
 	c.Stdout = rapid.IntRange(0, 5).Draw(t, "stdout") == 0
 	c.RefLower = rapid.IntRange(0, 5).Draw(t, "refLower") == 0
+	c.CLI = rapid.IntRange(0, 19).Draw(t, "cli") == 0
 	return c
 }
 
